@@ -82,3 +82,161 @@ _register = register
 def register(db):  # noqa: F811
     _register(db)
     register_names(db)
+
+
+def register_marker_and_job(db):
+    A = "repid/_utils/args_bucket_in_message_id.py"
+    for m in ("construct", "check", "deconstruct"):
+        db.contract(fn=f"{A}::_ArgsBucketInMessageId.{m}", serves=["C07"], inline_in_harness=True)
+    db.contract(
+        fn="harness::bucket_marker_roundtrip", serves=["C07"], harness_module="repid/job.py",
+        harness_src="def bucket_marker_roundtrip(id_):\n"
+                    "    m = _ArgsBucketInMessageId.construct(id_)\n"
+                    "    return (_ArgsBucketInMessageId.check(m), _ArgsBucketInMessageId.deconstruct(m))\n",
+        binds={"id_": "str"}, requires=["VALID_ID.fullmatch(id_) is not None"],
+        ensures={"recognised": "result[0] == True", "id_recovered": "result[1] == id_"},
+        raises=[], modifies=[], returns="tuple[bool, str]")
+
+
+_register2 = register
+
+
+def register(db):  # noqa: F811
+    _register2(db)
+    register_marker_and_job(db)
+
+
+def register_job(db):
+    J = "repid/job.py::Job."
+    db.ufun("marker_id", ["str"], "str")
+    A = "repid/_utils/args_bucket_in_message_id.py::_ArgsBucketInMessageId."
+    KEY = "__repid_payload_id"
+    db.define("is_marker(s)", f"s.find('{KEY}', 0, {len(KEY) + 3}) != -1")
+    # contracts used by callers outside the harness (get_payload, Job._construct_args)
+    c = db.contracts[A + "check"]
+    c.ensures = {"window": "result == is_marker(string)"}
+    c.binds = {"string": "str"}
+    c = db.contracts[A + "deconstruct"]
+    c.assumed, c.returns, c.binds = True, "str", {"string": "str"}
+    c.ensures = {"id": "result == marker_id(string)"}
+    c.note = "json.loads(marker).get(KEY); its inverse relation to construct() is the harness bucket_marker_roundtrip"
+    c = db.contracts[A + "construct"]
+    c.assumed, c.returns, c.binds = True, "str", {"id_": "str"}
+    c.ensures = {"marker": "is_marker(result) and marker_id(result) == id_"}
+    c.note = "justified by the harness bucket_marker_roundtrip (same real bodies)"
+
+    db.contract(
+        fn="repid/_processor.py::_Processor.get_payload#", serves=[],
+    ) if False else None
+    gp = db.contracts["repid/_processor.py::_Processor.get_payload"]
+    gp.assumed = False
+    gp.note = ""
+    gp.ghost_init = {"trace": "events", "store_fails": "bool", "last_bucket": "Optional[ArgsBucket]"}
+    gp.requires = ["implies(is_marker(initial_payload), self._conn.args_bucket_broker is not None)"]
+    gp.effects = [("trace", "('get_bucket', marker_id(initial_payload))", "is_marker(initial_payload)")]
+    gp.ensures = {"inline_payload_unchanged": "implies(not is_marker(initial_payload), result == initial_payload)",
+                  "bucket_payload": "implies(is_marker(initial_payload) and ghost.last_bucket is not None, result == ghost.last_bucket.data)",
+                  "missing_bucket_falls_back": "implies(is_marker(initial_payload) and ghost.last_bucket is None, result == initial_payload)"}
+    gp.raises = [Raises("Exception", mode="may", anysub=True, when="flag('store_fails') and is_marker(initial_payload)",
+                        effects=[], modifies=["ghost.last_bucket"])]
+    gp.modifies = ["ghost.last_bucket"]
+    gp.serves = ["C07"]
+    gb = db.contracts["BucketBrokerT.get_bucket"]
+    gb.modifies = ["ghost.last_bucket"]
+    gb.ensures = {"remembered": "ghost.last_bucket == result"}
+    gb.effects = [("trace", "('get_bucket', id_)")]
+
+    # ---- Job -> (routing key, parameters, payload)
+    db.shape("Queue", {"name": "str", "_conn": "Connection"})
+    db.shape("UUID", {"hex": "str"})
+    db.shape("Job", {"name": "str", "queue": "Queue", "priority": "PrioritiesT", "id_": "Optional[str]",
+                     "deferred_until": "Optional[datetime]", "deferred_by": "Optional[timedelta]", "cron": "Optional[str]",
+                     "retries": "int", "timeout": "timedelta", "ttl": "Optional[timedelta]", "timestamp": "datetime",
+                     "args_id": "str", "args_id_set": "bool", "args_ttl": "Optional[timedelta]", "args": "Optional[str]",
+                     "use_args_bucketer": "bool", "result_id": "str", "result_ttl": "Optional[timedelta]",
+                     "store_result": "bool", "_conn": "Connection"})
+    db.shape("MessageBrokerT", {"ROUTING_KEY_CLASS": "cls[RoutingKey]", "PARAMETERS_CLASS": "cls[Parameters]"})
+    db.define("valid_job(j)", "VALID_NAME.fullmatch(j.name) is not None and VALID_NAME.fullmatch(j.queue.name) is not None"
+                              " and (j.id_ is None or VALID_ID.fullmatch(j.id_) is not None)")
+    db.contract(
+        fn=J + "_construct_routing_key", serves=["C07"], requires=["valid_job(self)"],
+        ensures={"topic": "result.topic == self.name", "queue": "result.queue == self.queue.name",
+                 "priority": "result.priority == self.priority.value",
+                 "id": "implies(self.id_ is not None and self.id_ != '', result.id_ == self.id_)",
+                 "valid": "valid_key(result)"},
+        raises=[], modifies=[], returns="RoutingKey")
+    db.contract(
+        fn=J + "_construct_parameters", serves=["C07"],
+        ensures={"timeout": "result.execution_timeout == self.timeout",
+                 "retries": "result.retries.max_amount == self.retries and result.retries.already_tried == 0",
+                 "result_settings": "(result.result is None) == (not self.store_result) and implies(self.store_result,"
+                                    " result.result.id_ == self.result_id and result.result.ttl == self.result_ttl)",
+                 "delay": "result.delay.delay_until == self.deferred_until and result.delay.defer_by == self.deferred_by"
+                          " and result.delay.cron == self.cron and result.delay.next_execution_time is None",
+                 "timestamp_and_ttl": "result.timestamp == self.timestamp and result.ttl == self.ttl"},
+        raises=[], modifies=[], returns="Parameters")
+    db.contract(fn="BucketBrokerT.store_bucket#job", serves=[]) if False else None
+    db.contract(
+        fn=J + "_construct_args", serves=["C07"], clock=["now"], ghost_init={"trace": "events", "store_fails": "bool"},
+        requires=["implies(self.use_args_bucketer and self.args is not None, self._conn.args_bucket_broker is not None)"],
+        fresh={"bucket": ("ArgsBucket", "trace[0][2]")},
+        effects=[("trace", "('store_bucket', self.args_id, bucket)", "self.use_args_bucketer and self.args is not None")],
+        ensures={
+            "bucketed": "implies(self.use_args_bucketer and self.args is not None, is_marker(result) and marker_id(result) == self.args_id"
+                        " and bucket.data == self.args and bucket.ttl == self.args_ttl)",
+            "reference_only": "implies(not (self.use_args_bucketer and self.args is not None) and self.args_id_set,"
+                              " is_marker(result) and marker_id(result) == self.args_id)",
+            "inline": "implies(not (self.use_args_bucketer and self.args is not None) and not self.args_id_set,"
+                      " result == (self.args if (self.args is not None and self.args != '') else ''))",
+        },
+        raises=[Raises("Exception", mode="may", anysub=True, when="flag('store_fails') and self.use_args_bucketer and self.args is not None")],
+        modifies=[], returns="str")
+
+
+def finalize(db):
+    register_job(db)
+
+
+def register_job_enqueue(db):
+    J = "repid/job.py::Job."
+    db.contract(
+        fn=J + "enqueue", serves=["C07"], clock=["now"], ghost_init={"trace": "events", "store_fails": "bool", "broker_fails": "bool"},
+        requires=["valid_job(self)",
+                  "implies(self.use_args_bucketer and self.args is not None, self._conn.args_bucket_broker is not None)"],
+        ensures={
+            # the broker receives exactly what the job describes (last event = the enqueue call)
+            "enqueue_is_last_call": "trace[len(trace) - 1][0] == 'enqueue'",
+            "key": "trace[len(trace) - 1][1].topic == self.name and trace[len(trace) - 1][1].queue == self.queue.name"
+                   " and trace[len(trace) - 1][1].priority == self.priority.value"
+                   " and implies(self.id_ is not None and self.id_ != '', trace[len(trace) - 1][1].id_ == self.id_)",
+            "parameters": "trace[len(trace) - 1][3].execution_timeout == self.timeout"
+                          " and trace[len(trace) - 1][3].retries.max_amount == self.retries"
+                          " and trace[len(trace) - 1][3].ttl == self.ttl and trace[len(trace) - 1][3].timestamp == self.timestamp"
+                          " and trace[len(trace) - 1][3].delay.delay_until == self.deferred_until"
+                          " and trace[len(trace) - 1][3].delay.defer_by == self.deferred_by",
+            "payload_inline_or_reference": "implies(not (self.use_args_bucketer and self.args is not None) and not self.args_id_set,"
+                                           " trace[len(trace) - 1][2] == (self.args if (self.args is not None and self.args != '') else ''))",
+            "payload_reference": "implies((self.use_args_bucketer and self.args is not None) or self.args_id_set,"
+                                 " is_marker(trace[len(trace) - 1][2]) and marker_id(trace[len(trace) - 1][2]) == self.args_id)",
+            "returns_what_was_sent": "result[0] is trace[len(trace) - 1][1] and result[2] is trace[len(trace) - 1][3]",
+            "at_most_store_then_enqueue": "len(trace) <= 2",
+        },
+        raises=[Raises("Exception", mode="may", anysub=True, when="flag('store_fails') or flag('broker_fails')")],
+        modifies=[], trace_exact=False, returns="tuple[RoutingKey, str, Parameters]",
+    )
+    db.contract(
+        fn=J + "result", serves=["C13"], ghost_init={"trace": "events", "store_fails": "bool", "last_bucket": "Optional[ArgsBucket]"},
+        requires=["self._conn.results_bucket_broker is not None"],
+        effects=[("trace", "('get_bucket', self.result_id)")],
+        ensures={"reads_under_result_id": "True"},
+        raises=[Raises("Exception", mode="may", anysub=True, when="flag('store_fails')")],
+        modifies=["ghost.last_bucket"], returns="Optional[ResultBucket]",
+    )
+
+
+_fin = finalize
+
+
+def finalize(db):  # noqa: F811
+    _fin(db)
+    register_job_enqueue(db)
